@@ -1,5 +1,5 @@
 """C19 unit: highest_density_region vs Model/HDR.v, and the defining formulas of Spec/HDRSpec.v (the spec side of
-C19_hdr_upper_is_definition, C19_hdr_is_definition_partial, C19_hdr_fractions_independent,
+C19_hdr_upper_is_definition, C19_hdr_is_definition, C19_hdr_fractions_independent,
 C19_hdr_intervals_fit_buffer) evaluated independently in Python on the implementation's output.
 
 A case: (data, fractions, only_upper_part, buffer_size).
@@ -31,8 +31,8 @@ FRACTION_SETS = [
 ]
 # three intervals with _buffer_size = 2: the pinned code wrote beyond res[fi, :, :2] (fixed by /repo 1da565c)
 OOB_WITNESS = {"data": [1, 0, 1, 0, 1], "fractions": [[9, 10]], "upper": 0, "bs": 2}
-# tied largest sample, one of the tied samples alone holds the fraction, only_upper_part=False: the region is the
-# single sample 2 although sample 0 is as high (theorem C19_hdr_is_definition_refuted_witness)
+# tied largest sample, one of the tied samples alone holds the fraction, only_upper_part=False: the pinned code
+# returned the single sample 2 although sample 0 is as high (fixed by /repo 2181c25; C19_hdr_is_definition_pinned_refuted)
 TIE_WITNESS = {"data": [3, 1, 3, 0], "fractions": [[1, 4]], "upper": 0, "bs": 10}
 
 
@@ -106,35 +106,30 @@ def height_of_fraction(data, f):
 
 
 def top_tie(data, f):
-    """the hypothesis no_top_tie of C19_hdr_is_definition_partial fails: the largest sample is tied and one of the
-    tied samples alone holds the fraction"""
+    """the largest sample is tied and one of the tied samples alone holds the fraction (the case the pinned code got
+    wrong)"""
     m = max(data)
     return data.count(m) > 1 and m >= f * sum(data)
 
 
-def expected(data, f, upper, exempt_tie):
+def expected(data, f, upper):
     """(intervals, amplitude) by the defining formulas of Spec/HDRSpec.v (hdr_upper_result / hdr_level_result)"""
     tot = sum(data)
     if upper:
         h = height_of_fraction(data, f)
         assert area_above(data, h) == f * tot and h >= 0
         return runs_of(i for i, d in enumerate(data) if d > h), h
-    if exempt_tie and top_tie(data, f):
-        # documented deviation (C19_hdr_is_definition_refuted): only the last of the tied largest samples
-        last = max(i for i, d in enumerate(data) if d == max(data))
-        return [(last, last + 1)], Fraction(max(data)) - f * tot
     lev = max(L for L in set(data) if sum(d for d in data if d >= L) >= f * tot)
     inside = [i for i, d in enumerate(data) if d >= lev]
     return runs_of(inside), (sum(data[i] for i in inside) - f * tot) / len(inside)
 
 
-def predicate(data, fs, upper, bs, out, exempt_tie=True):
-    """spec side of C19_hdr_upper_is_definition / C19_hdr_is_definition_partial / C19_hdr_intervals_fit_buffer, for
+def predicate(data, fs, upper, bs, out):
+    """spec side of C19_hdr_upper_is_definition / C19_hdr_is_definition / C19_hdr_intervals_fit_buffer, for
     every fraction independently (C19_hdr_fractions_independent): only_upper_part: the amplitude is the height above
     which the distribution holds exactly the fraction and the intervals are the maximal runs of the samples above
     it; otherwise the maximal runs of the smallest upper level set holding the fraction, amplitude = surplus area /
-    number of samples; the -1 marker exactly when there are more intervals than max(1, buffer) slots.
-    exempt_tie: where the hypothesis no_top_tie fails, expect the behaviour proved for the model instead."""
+    number of samples; the -1 marker exactly when there are more intervals than max(1, buffer) slots."""
     if not isinstance(out, list):
         return None if sum(data) <= 0 else "raised on a distribution with positive total"
     if sum(data) <= 0:
@@ -142,7 +137,7 @@ def predicate(data, fs, upper, bs, out, exempt_tie=True):
     if min(data) < 0 or any(not (0 < f <= 1) for f in fs) or list(fs) != sorted(fs):
         return None
     for f, (iv, amp) in zip(fs, out):
-        eiv, eamp = expected(data, f, upper, exempt_tie)
+        eiv, eamp = expected(data, f, upper)
         if iv is None:
             if len(eiv) <= max(1, bs):
                 return "fraction %s: overflow marker although the %d intervals %s fit %d slots" % (f, len(eiv), eiv, bs)
@@ -200,7 +195,7 @@ def unit(ctx):
         u.tally("err" if isinstance(out, str) else ("overflow(-1)" if any(iv is None for iv, _ in out) else "ok"))
         if isinstance(out, list) and sum(data) > 0:
             u.tally("only_upper_part" if upper else
-                    ("top_tie(hypothesis of the partial theorem fails)" if any(top_tie(data, f) for f in fs)
+                    ("level_set, tied maximum holds a fraction" if any(top_tie(data, f) for f in fs)
                      else "level_set"))
         if isinstance(out, list) and any(iv is not None and len(iv) >= 2 for iv, _ in out):
             u.nontriv.add((tuple(data), tuple(fs), upper, bs))
@@ -216,10 +211,10 @@ def unit(ctx):
                 if u.bad > 5:
                     break
     for w, what in ((OOB_WITNESS, "buffer_size+1 intervals"),
-                    (TIE_WITNESS, "tied largest sample (C19_hdr_is_definition_refuted_witness)")):
+                    (TIE_WITNESS, "tied largest sample (the pinned code cut the tie)")):
         wfs = [Fraction(a, b) for a, b in w["fractions"]]
         out = impl(w["data"], wfs, w["upper"], w["bs"])
-        reason = predicate(w["data"], wfs, w["upper"], w["bs"], out, exempt_tie=False)
+        reason = predicate(w["data"], wfs, w["upper"], w["bs"], out)
         if reason:
             ctx.violation(u.name, "%s: %s (returned %s)" % (what, reason, out), {"input": w})
     u.done()
@@ -231,6 +226,6 @@ def unit(ctx):
 def replay(inp):
     fs = [Fraction(a, b) for a, b in inp["fractions"]]
     out = impl(inp["data"], fs, inp["upper"], inp["bs"])
-    reason = predicate(inp["data"], fs, inp["upper"], inp["bs"], out, exempt_tie=False)
+    reason = predicate(inp["data"], fs, inp["upper"], inp["bs"], out)
     print("impl:", out, "spec:", reason or "holds")
     return 1 if reason else 0
